@@ -62,6 +62,75 @@ type c10Err struct{ k int }
 
 func (e c10Err) Error() string { return "E" + strconv.Itoa(e.k) }
 
+// The error VALUE classes a user function can hand to cancel / return from a Finish function (c<k>):
+//   k = 0        nil                                  (the library records ErrCancelWithNil)
+//   k = 1..99    c10Err{k}: a struct value with a non-zero field
+//   k = 101      c10ZeroStruct{}: an empty-struct sentinel with a value receiver (the zero value of its type)
+//   k = 102      c10Code(0): an int-coded error with code 0            (zero value)
+//   k = 103      c10Text(""): a string-coded error with an empty text  (zero value)
+//   k = 104      (*c10Ptr)(nil): a typed nil pointer — a NON-nil error (zero value)
+//   k = 105      &c10Ptr{}: a non-nil pointer to a zero struct
+//   k = 106      fmt.Errorf("…%w", c10Err{106}): a wrapped error
+//   k = 107      c10Slice(nil): an error of an uncomparable type, nil slice (zero value)
+//   k = 108      c10Err{0}: a struct whose fields are all zero        (zero value)
+//   k = 109      context.Canceled handed to cancel by the USER (no context option needed)
+//   k = 110      ErrCancelWithNil handed to cancel explicitly (same outcome as cancel(nil))
+//   k = 111      ErrReduceNoOutput handed to cancel: the library's own "no output" sentinel as a cancel error
+//   k = 112      fmt.Errorf("…%w", ErrReduceNoOutput): an error that WRAPS the sentinel (what a nested
+//                MapReduce call without output returns, decorated by the caller)
+// All of them are non-nil errors except k = 0: "an error that was passed to cancel" must come back.
+type c10ZeroStruct struct{}
+
+func (c10ZeroStruct) Error() string { return "zero-struct" }
+
+type c10Code int
+
+func (c c10Code) Error() string { return "code" + strconv.Itoa(int(c)) }
+
+type c10Text string
+
+func (c c10Text) Error() string { return "text:" + string(c) }
+
+type c10Ptr struct{ k int }
+
+func (p *c10Ptr) Error() string { return "ptr" }
+
+type c10Slice []error
+
+func (c10Slice) Error() string { return "slice" }
+
+func c10MkErr(k int) error {
+	switch k {
+	case 0:
+		return nil
+	case 101:
+		return c10ZeroStruct{}
+	case 102:
+		return c10Code(0)
+	case 103:
+		return c10Text("")
+	case 104:
+		return (*c10Ptr)(nil)
+	case 105:
+		return &c10Ptr{}
+	case 106:
+		return fmt.Errorf("wrapped: %w", c10Err{106})
+	case 107:
+		return c10Slice(nil)
+	case 108:
+		return c10Err{0}
+	case 109:
+		return context.Canceled
+	case 110:
+		return ErrCancelWithNil
+	case 111:
+		return ErrReduceNoOutput
+	case 112:
+		return fmt.Errorf("inner call: %w", ErrReduceNoOutput)
+	}
+	return c10Err{k}
+}
+
 // c10Hangs counts the calls of this process that did not return: after c10MaxHangs of them the remaining
 // operations are not executed (`res=skipped`), so that a broken tree costs seconds, not the whole budget
 // (every hang costs the watchdog time; the replay / shrinking of a hang runs in a fresh process).
@@ -105,6 +174,40 @@ func c10PanicName(p any) string {
 
 func c10ErrName(err error) string {
 	var ce c10Err
+	switch e := err.(type) {
+	case c10ZeroStruct:
+		return "E101"
+	case c10Code:
+		if e == 0 {
+			return "E102"
+		}
+		return "other"
+	case c10Text:
+		if e == "" {
+			return "E103"
+		}
+		return "other"
+	case *c10Ptr:
+		if e == nil {
+			return "E104"
+		}
+		return "E105"
+	case c10Slice:
+		if e == nil {
+			return "E107"
+		}
+		return "other"
+	case c10Err:
+		if e.k == 0 {
+			return "E108"
+		}
+	}
+	switch {
+	case err == context.Canceled:
+		return "E109" // the library itself never returns context.Canceled (it returns DeadlineExceeded)
+	case err != ErrReduceNoOutput && errors.Is(err, ErrReduceNoOutput):
+		return "E112"
+	}
 	switch {
 	case errors.As(err, &ce):
 		return "E" + strconv.Itoa(ce.k)
@@ -295,11 +398,7 @@ func c10Exec(op []string) string {
 		case a[0] == 'c':
 			k := verifh.Atoi(a[1:])
 			ev.fire("cb"+who+"_"+strconv.Itoa(k), "cb"+who, "cb")
-			if k == 0 {
-				cancel(nil)
-			} else {
-				cancel(c10Err{k})
-			}
+			cancel(c10MkErr(k))
 			ev.fire("ce"+who, "ce"+who, "ce")
 		default:
 			panic("verif: bad action " + a)
@@ -361,7 +460,7 @@ func c10Exec(op []string) string {
 			case a[0] == 'c':
 				k := verifh.Atoi(a[1:])
 				ev.fire("cbm"+is+"_"+strconv.Itoa(k), "cbm"+is, "cb")
-				return c10Err{k}
+				return c10MkErr(k)
 			case a[0] == 'w' || a == "x" || a == "a" || a == "o":
 				panic("verif: bad action for Finish " + a)
 			default:
@@ -902,6 +1001,88 @@ func c10Entries(r *verifh.Rng) []c10Cfg {
 		e.m[0], e.m[1] = []string{"f", "w1"}, []string{"w2", "f"}
 		e.r = []string{"a", "f", "w7"}
 		out = append(out, e)
+	}
+	return out
+}
+
+// c10SpecialErrs: the error VALUE classes of c10MkErr besides the plain struct value.
+var c10SpecialErrs = []int{101, 102, 103, 104, 105, 106, 107, 108, 109, 110, 111, 112}
+
+func c10IsCancelTok(a string) bool {
+	if len(a) < 2 || a[0] != 'c' {
+		return false
+	}
+	_, err := strconv.Atoi(a[1:])
+	return err == nil && a != "c0"
+}
+
+// c10VaryErr re-expresses the cancel errors of a call by other error VALUE classes (zero-valued struct / int / string /
+// typed nil pointer / wrapped / uncomparable / the library's own sentinels).  The expected behaviour does not change:
+// the error that was passed to cancel comes back.
+func c10VaryErr(r *verifh.Rng, c c10Cfg) c10Cfg {
+	c = c10Clone(c)
+	sub := func(sc []string) {
+		for i, a := range sc {
+			if c10IsCancelTok(a) && r.Chance(2, 3) {
+				k := c10SpecialErrs[r.Intn(len(c10SpecialErrs))]
+				if c.api == "finish" && k == 110 {
+					k = 104
+				}
+				sc[i] = "c" + strconv.Itoa(k)
+			}
+		}
+	}
+	for _, sc := range c.m {
+		sub(sc)
+	}
+	sub(c.r)
+	return c
+}
+
+// c10ErrKinds enumerates every error VALUE class at every place an error enters the library: a mapper's cancel, the
+// reducer's cancel, the return value of a Finish function — on every entry point that takes one, alone and against a
+// second cancel / an early reducer write / a function that must no longer run.
+func c10ErrKinds(r *verifh.Rng) []c10Cfg {
+	var out []c10Cfg
+	it := strconv.Itoa
+	kinds := append([]int{5}, c10SpecialErrs...)
+	for _, k := range kinds {
+		ck := "c" + it(k)
+		for _, api := range []string{"mr", "void", "chan"} {
+			// a mapper cancels after a write; the reducer reads everything, then writes (the write must be dropped)
+			c := c10Cfg{api: api, n: 2, w: 2, ctx: "none", gp: -1, gx: -1}
+			c.m = [][]string{{"w1", ck}, {"w2"}}
+			c.r = []string{"a", "w7"}
+			out = append(out, c)
+			// the reducer cancels before reading
+			d := c10Cfg{api: api, n: 2, w: 1, ctx: "none", gp: -1, gx: -1}
+			d.m = [][]string{{"w1"}, {"w2"}}
+			d.r = []string{ck, "a"}
+			out = append(out, d)
+			// one worker: item 0 cancels, item 1 must see the cancel (it may or may not be started); the reducer does not write
+			e := c10Cfg{api: api, n: 3, w: 1, ctx: "none", gp: -1, gx: -1}
+			e.m = [][]string{{ck}, {"w2"}, {"w3"}}
+			e.r = []string{"a"}
+			out = append(out, e)
+			// two cancels with different value classes: the second one only after the first has returned
+			k2 := kinds[r.Intn(len(kinds))]
+			f := c10Cfg{api: api, n: 2, w: 2, ctx: "none", gp: -1, gx: -1}
+			f.m = [][]string{{"us1", ck}, {"ucem0", "c" + it(k2)}}
+			f.r = []string{"a"}
+			out = append(out, f)
+		}
+		if k != 110 {
+			for n := 1; n <= 3; n++ {
+				i := r.Intn(n)
+				c := c10Cfg{api: "finish", n: n, w: n, ctx: "none", gp: -1, gx: -1}
+				c.m = make([][]string, n)
+				for j := range c.m {
+					c.m[j] = []string{"us" + it(n-1)}
+				}
+				c.m[i] = append(c.m[i], ck)
+				out = append(out, c)
+			}
+		}
 	}
 	return out
 }
@@ -1510,6 +1691,22 @@ func c10Gen(r *verifh.Rng) []verifh.Section {
 			lines = append(lines, c10Vary(r, c).String())
 		}
 	}
+	// the same calls with other error VALUE classes handed to cancel / returned by the Finish functions
+	{
+		r4 := r.Fork()
+		for i := range lines {
+			if strings.Contains(lines[i], "c") && r4.Chance(1, 3) {
+				if c, ok := c10ParseLineAny(lines[i]); ok {
+					lines[i] = c10VaryErr(r4, c).String()
+				}
+			}
+		}
+	}
+	for rep := verifh.Scale(1, 4); rep > 0; rep-- {
+		for _, c := range c10ErrKinds(r) {
+			lines = append(lines, c10Vary(r, c).String())
+		}
+	}
 	// ForEach: plain and with a panicking item
 	for i := verifh.Scale(10, 200); i > 0; i-- {
 		w := r.Range(1, 4)
@@ -1568,6 +1765,44 @@ func c10ParseLine(line string) (c10Cfg, bool) {
 		}
 	}
 	c.r = c10Script(cfg.Str("r", "-"))
+	return c, true
+}
+
+// c10ParseLineAny also reads lines whose w= is an option list / `def` and that carry co= (generation only).
+func c10ParseLineAny(line string) (c10Cfg, bool) {
+	f := strings.Fields(line)
+	if len(f) == 0 || f[0] != "run" {
+		return c10Cfg{}, false
+	}
+	cfg := verifh.ParseCfg(strings.Join(f[1:], " "))
+	ws := cfg.Str("w", "1")
+	eff := 16
+	if ws != "def" {
+		parts := strings.Split(ws, ",")
+		last, err := strconv.Atoi(parts[len(parts)-1])
+		if err != nil {
+			return c10Cfg{}, false
+		}
+		eff = last
+		if eff < 1 {
+			eff = 1
+		}
+	}
+	for i, t := range f {
+		if strings.HasPrefix(t, "w=") {
+			f[i] = "w=" + strconv.Itoa(eff)
+		}
+	}
+	c, ok := c10ParseLine(strings.Join(f, " "))
+	if !ok {
+		return c, false
+	}
+	if ws != strconv.Itoa(eff) {
+		c.ws = ws
+	}
+	if co := cfg.Int("co", -1); co >= 0 {
+		c.co = co + 1
+	}
 	return c, true
 }
 
